@@ -378,7 +378,7 @@ def c13(ctx, rep):
     rep.fixture('CACHE-ESCAPE:bad_escape', bool(col.fired_for('bad_escape', 'CACHE-ESCAPE')))
     rep.floor('reference summaries compared', n, 15)
     rep.floor('RefCell borrow sites', c, 3)
-    rep.floor('writers of the cache', a, 4)
+    rep.floor('writers of the cache', a, 3)
     return ('Static analysis of arrival/curve.rs: RefCell discipline of the shared extrapolation cache (guard scopes, escape, '
             'transitive may-borrow effects; with compile-fail witnesses that the type is !Send, !Sync and its cache field '
             'private, re-entrancy is the only way to a borrow failure and it is excluded), append-only writers, '
